@@ -159,7 +159,19 @@ def _getmro(ip, a, kw, node):
     return ZV(mro(x), "Seq[Ty]")
 
 
+_TYPE_PREDS = {"builtins.type": lambda o: TY.is_class(o), "types.GeneratorType": lambda o: is_generator_obj(o)}
+for _n in ("types.FunctionType", "types.LambdaType", "types.MethodType", "types.BuiltinMethodType", "types.BuiltinFunctionType"):
+    _TYPE_PREDS[_n] = lambda o: is_callable_obj(o)
+
+
 def _issubclass(ip, a, kw, node):
+    # issubclass(type(obj), T) for the interpreter's own types: isinstance(obj, T) decided on the real runtime class
+    items = a[1].items if isinstance(a[1], PySeq) else [a[1]]
+    if all(isinstance(c, GlobalRef) and c.path in _TYPE_PREDS for c in items) and isinstance(a[0], ZV) \
+            and z3.is_app(a[0].term) and a[0].term.decl().name() == "cls_of":
+        o = a[0].term.arg(0)
+        outs = [_TYPE_PREDS[c.path](o) for c in items]
+        return ZB(z3.Or(*outs) if len(outs) > 1 else outs[0])
     x, y = as_v(a[0]), as_v(a[1])
     # TypedDict classes refuse class checks (TypeError), generic aliases are not classes
     ip.partial(z3.And(kind(x) == K["Class"], kind(y) == K["Class"]), "TypeError", node, "issubclass")
